@@ -1,6 +1,7 @@
 package main
 
 import (
+	"bytes"
 	"fmt"
 
 	"github.com/fxamacker/cbor/v2"
@@ -207,6 +208,23 @@ func typedPayloadProduced(c *ctx) {
 		{"*struct with maps", func(k string) ([]byte, error) { return produceTyped[*typedStruct](k, f, &st) }, func() ([]byte, error) { return key.MarshalCBOR(&st) }},
 		{"[]any holding maps", func(k string) ([]byte, error) { return produceTyped[[]any](k, f, nested) }, func() ([]byte, error) { return key.MarshalCBOR(nested) }},
 		{"any holding a map", func(k string) ([]byte, error) { return produceTyped[any](k, f, big) }, func() ([]byte, error) { return key.MarshalCBOR(big) }},
+	}
+	// a pre-encoded payload (cbor.RawMessage) is taken verbatim, whatever CBOR it holds (indefinite lengths, deep
+	// nesting, non-shortest heads): the message produced from it is accepted back with the same bytes
+	deep := append(bytes.Repeat([]byte{0x81}, 40), 0x01)
+	for _, kind := range []string{"KSign1", "KMac0", "KEnc0", "KSign", "KMac", "KEnc"} {
+		for _, raw := range [][]byte{{0x9f, 0x01, 0x02, 0xff}, {0xbf, 0x01, 0x02, 0xff}, {0x5f, 0x41, 0x01, 0xff}, {0x7f, 0x61, 0x61, 0xff}, deep, {0x18, 0x01}, {0xa2, 0x02, 0x01, 0x01, 0x02}, {0x01, 0x02}} {
+			var got []byte
+			var err error
+			p, pm := catch(func() { got, err = produceTyped[cbor.RawMessage](kind, f, cbor.RawMessage(raw)) })
+			c.eval()
+			c.nontriv(fmt.Sprintf("raw-payload|%s|%x", kind, raw[:1]))
+			line := fmt.Sprintf("typed-payload-produced|%s[cbor.RawMessage]|payload=%x", kind, raw)
+			if p || err != nil || string(got) != string(raw) {
+				c.fail(failure{Op: "typed-payload", What: "a message produced from a pre-encoded payload is not accepted back with the same payload bytes", Input: short(line),
+					Observed: short(fmt.Sprintf("panic=%v %s err=%v payload=%x", p, pm, err, got)), Expected: short(fmt.Sprintf("%x", raw)), Case: short(line)})
+			}
+		}
 	}
 	for _, kind := range []string{"KSign1", "KMac0", "KEnc0", "KSign", "KMac", "KEnc"} {
 		for _, r := range runs {
